@@ -13,7 +13,7 @@ FIXED_RE = re.compile(r"^Fixed: (?P<file>.+)$")
 ERR0_RE = re.compile(r"^(?P<file>.+?):0:0: (?P<msg>.*)$")
 PRAGMA_RE = re.compile(r"^(?P<file>.+?):(?P<line>\d+):1: INLINE: (?P<msg>.*)$")
 
-NEUTRAL_WORLD = {"dirkey": None, "tmpkey": 0, "copy_chunk": None}
+NEUTRAL_WORLD = {"dirkey": None, "tmpkey": 0, "copy_chunk": None, "cold": False, "xdev": False}
 
 SYSTEM_ERROR_EXIT = {"default": 1, "minimal": 1}
 
